@@ -19,9 +19,15 @@ use crate::sched;
 #[derive(Clone, Copy)]
 struct Ticker {
     state: u64,
+    /// element operations until the next yield point (u32::MAX: this call has no yield points)
     countdown: u32,
     mean_gap: u32,
     yields: u32,
+    /// element operations executed by this call so far
+    ops: u32,
+    /// the element operation with this number panics (0 = none)
+    fault_at: u32,
+    fired: bool,
 }
 
 thread_local! {
@@ -37,29 +43,45 @@ fn draw_gap(state: &mut u64, mean: u32) -> u32 {
     1 + (next(state) % (2 * mean as u64 - 1).max(1)) as u32
 }
 
-/// arm the element-operation yield points for the operation about to run on this thread
-pub fn arm(seed: u64) {
-    if seed == 0 {
+pub const ELEM_FAULT_MSG: &str = "yf-element-operation-fault";
+
+/// arm the element-operation yield points (seed != 0) and the element-operation fault
+/// (fault_at != 0) for the operation about to run on this thread
+pub fn arm(seed: u64, fault_at: u32) {
+    if seed == 0 && fault_at == 0 {
         TICKER.with(|t| t.set(None));
         return;
     }
     let mut state = seed;
     // mean gap between yields: 4 .. 67 element operations, fixed per operation
-    let mean_gap = 4 + (next(&mut state) % 64) as u32;
-    let countdown = draw_gap(&mut state, mean_gap);
-    TICKER.with(|t| t.set(Some(Ticker { state, countdown, mean_gap, yields: 0 })));
+    let (mean_gap, countdown) = if seed == 0 {
+        (1, u32::MAX)
+    } else {
+        let mean_gap = 4 + (next(&mut state) % 64) as u32;
+        (mean_gap, draw_gap(&mut state, mean_gap))
+    };
+    TICKER.with(|t| t.set(Some(Ticker { state, countdown, mean_gap, yields: 0, ops: 0, fault_at, fired: false })));
 }
 
-/// disarm; returns how often the operation was actually suspended
-pub fn disarm() -> u32 {
-    TICKER.with(|t| t.take()).map(|t| t.yields).unwrap_or(0)
+/// disarm; returns how often the operation was actually suspended and whether the fault fired
+pub fn disarm() -> (u32, bool) {
+    TICKER.with(|t| t.take()).map(|t| (t.yields, t.fired)).unwrap_or((0, false))
 }
 
 #[inline]
 fn tick() {
     TICKER.with(|t| {
         if let Some(mut k) = t.get() {
-            k.countdown -= 1;
+            k.ops += 1;
+            if k.fault_at != 0 && k.ops == k.fault_at {
+                // fires exactly once per call: nothing executed while unwinding can fire it again
+                k.fired = true;
+                t.set(Some(k));
+                panic!("{}", ELEM_FAULT_MSG);
+            }
+            if k.countdown != u32::MAX {
+                k.countdown -= 1;
+            }
             if k.countdown == 0 {
                 k.countdown = draw_gap(&mut k.state, k.mean_gap);
                 t.set(Some(k));
@@ -213,6 +235,7 @@ impl ToPrimitive for Yf {
 }
 impl NumCast for Yf {
     fn from<T: ToPrimitive>(n: T) -> Option<Yf> {
+        tick();
         n.to_f64().map(Yf)
     }
 }
